@@ -9,16 +9,11 @@ COMMON_TRUSTED = [
     "Go toolchain, encoding/json, sync, sync/atomic as documented",
 ]
 
-PROPS = {
-    "C13": {
-        "level_text": "Theorems (kernel-checked, all histories / all interleavings): counters on the wire pairwise distinct under any interleaving of concurrent senders; monotone when calls do not overlap; withheld only if an identical request is unanswered, with the earlier counter; a different request never withheld; a response re-enables; request memory bounded with one entry per request. The last-100 clause is refuted by a kernel-checked witness (known finding lru-promotion). The model is tied to spine/send.go by an op-by-op differential run against the real Sender and a SPEC monitor on the implementation trace.",
-        "level_note": "Trusted: Lean kernel; hand-written model Spine.Snd/Spine.Ctr; harness; A-hash (SHA-256 injective), A-lru (library modelled), A-atomic. Concurrent uniqueness is proved on the event-sourced model and only monitored (not explored exhaustively) on the real code.",
-        "props_modules": ["Spine.Props.C13"],
-        "drivers": ["drv_snd"],
-        "tests": [{"name": "TestSender"}],
-        "trusted_base": [
-            "model Spine.Snd / Spine.Ctr written by hand from spine/send.go; SHA-256 of destination+command modelled as an injective id (A-hash); golanguzb70/lrucache modelled as a 3-line list model read from its source (A-lru); atomic.AddUint64 as atomic fetch-add (A-atomic)",
-        ],
-        "assumptions": ["A-hash", "A-lru", "A-atomic", "interleavings of concurrent senders are covered by the event-sourced theorem c13_unique; the concurrent harness rounds only monitor"],
-    },
-}
+
+import os, glob, importlib.util
+PROPS = {}
+for _f in sorted(glob.glob(os.path.join(os.path.dirname(os.path.abspath(__file__)), "props", "C*.py"))):
+    _spec = importlib.util.spec_from_file_location("prop_" + os.path.basename(_f)[:-3], _f)
+    _m = importlib.util.module_from_spec(_spec)
+    _spec.loader.exec_module(_m)
+    PROPS[os.path.basename(_f)[:-3]] = _m.P
